@@ -114,6 +114,10 @@ def execute(case):
     helper, kw, kind, rows = case["helper"], case["kw"], case["kind"], case["rows"]
     f = getattr(di, helper)
     args, kws = _call_args(helper, kw)
+    if len(rows) % 4 == 1:
+        # numeric arguments as NumPy scalars (an index / quantile / ddof computed from another array), the flag as np.bool_
+        args = [np.int64(a) if isinstance(a, int) and not isinstance(a, bool) else (np.float64(a) if isinstance(a, float) else a) for a in args]
+        kws = {k: (np.bool_(v) if isinstance(v, bool) else (np.int64(v) if isinstance(v, int) else v)) for k, v in kws.items()}
     byg = {}
     for g, v in rows:
         byg.setdefault(g, []).append(v)
